@@ -66,7 +66,7 @@ func runC03(c *ctx) error {
 			code = world.SHA512
 		}
 		d := world.NewDID(env.kp, env.tb, env.rng, code)
-		o := world.GenOpts{MinLen: 1, MaxLen: 9, Forged: i%3 == 0, DupCreates: i%4 == 1, Forks: true, BadDeltas: true, Windows: true,
+		o := world.GenOpts{RecoverOldUpd: i%2 == 0, MinLen: 1, MaxLen: 9, Forged: i%3 == 0, DupCreates: i%4 == 1, Forks: true, BadDeltas: true, Windows: true,
 			Cycles: true, Replays: i%2 == 0, Unpublished: 0, EndDeactivate: 15, TimeDelta: env.dl}
 		if i%10 == 9 {
 			o.MaxLen = 30
